@@ -13,6 +13,7 @@ import time
 import z3
 from z3 import And, If, Real, RealVal
 
+from ..contracts.call_oracle import CallOracle
 from ..contracts.moments_matrix import Gamma, ProjectLambda, SignedWeights
 from ..pyvc import solve, verify
 from ..report import ROOT
@@ -59,7 +60,10 @@ def run_deductive(rep):
               "Lean 4 kernel + Mathlib (thorough tier)", "z3", "pyvc symbolic executor")
     items = [(SignedWeights(), [("utility_diff_dropped", verify.replace_expr("self.utility_diff * self.U.dot(lambda_vec)", "self.U.dot(lambda_vec)"))]),
              (Gamma(), []),
-             (ProjectLambda(), [("clip_the_wrong_side", verify.replace_expr("lambda_pos < 0.0", "lambda_pos > 0.0"))])]
+             (ProjectLambda(), [("clip_the_wrong_side", verify.replace_expr("lambda_pos < 0.0", "lambda_pos > 0.0"))]),
+             (CallOracle(), [("relabel_with_non_strict_test", verify.replace_expr("signed_weights > 0", "signed_weights >= 0")),
+                             ("objective_weights_missing", verify.replace_expr("self.obj.signed_weights() + self.constraints.signed_weights(lambda_vec)", "self.constraints.signed_weights(lambda_vec)")),
+                             ("weights_not_absolute", verify.replace_expr("signed_weights.abs()", "signed_weights"))])]
     verify.verify_many(rep, items)
     lemmas(rep)
     if rep.tier == "thorough":
